@@ -68,44 +68,58 @@ namespace c09
     int role[4] = { -1, -1, -1, -1 };  // object index per role (objects may be shared between roles)
   };
 
+  /// Bulk data (pattern flags, small value choices) is decoded from 4-bit pieces, eight per tape entry: rapidcheck's
+  /// shrinking of the fixed-length tape costs O(length^2 * 32) evaluations, so the tape must stay short.
+  /// All-zero tape entries still decode to the simplest choice everywhere.
+  struct Nib
+  {
+    Tape& t; uint32_t cur = 0; int left = 0;
+    explicit Nib(Tape& tt) : t(tt) {}
+    int next() { if(!left) { cur = t.raw(); left = 8; } int v = int(cur & 15u); cur >>= 4; --left; return v; }
+    /// true with probability ~num/den (den <= 16); 0 -> false
+    bool flag(unsigned num, unsigned den) { return (unsigned(next()) % den) >= (den - num); }
+    int range(int lo, int hi) { int span = hi - lo + 1; if(span <= 1) return lo; int v = span <= 16 ? next() : (next() | (next() << 4)); return lo + v % span; }
+  };
   // --- small value pickers (0 on the tape -> first entry)
-  inline double pick_val(Tape& t, std::initializer_list<double> v) { int k = t.range(0, (int)v.size() - 1); return *(v.begin() + k); }
+  inline double pick_val(Nib& t, std::initializer_list<double> v) { int k = t.range(0, (int)v.size() - 1); return *(v.begin() + k); }
 
   /// SPD by construction: symmetric pattern, strictly diagonally dominant with positive diagonal
-  inline Pat gen_spd(Tape& t, int n, std::string* cls_out = nullptr)
+  inline Pat gen_spd(Tape& tp, int n, std::string* cls_out = nullptr)
   {
+    Tape& t = tp; Nib nb(tp);
     Pat p; p.rows = p.cols = n; p.col.assign(n, {}); p.val.assign(n, {});
     int cls = t.pick({4, 3, 1, 1}); // random symmetric / tridiagonal / dense / diagonal
     static const char* cn[] = { "sym-random", "tridiag", "dense", "diagonal" };
     p.cls = cn[cls]; if(cls_out) *cls_out = cn[cls];
     std::vector<std::vector<double>> m(n, std::vector<double>(n, 0.0));
-    unsigned num = 2 + (unsigned)t.range(0, 4);
+    unsigned num = 3 + (unsigned)t.range(0, 7);
     for(int i = 0; i < n; ++i) for(int j = 0; j < i; ++j)
     {
       bool on = false;
-      switch(cls) { case 0: on = t.flag(num, 10); break; case 1: on = (j == i - 1); break; case 2: on = true; break; default: on = false; }
+      switch(cls) { case 0: on = nb.flag(num, 16); break; case 1: on = (j == i - 1); break; case 2: on = true; break; default: on = false; }
       if(!on) continue;
-      double v = pick_val(t, { -1.0, -0.5, 0.5, -0.25, 1.0, -2.0, 0.25 });
+      double v = pick_val(nb, { -1.0, -0.5, 0.5, -0.25, 1.0, -2.0, 0.25 });
       m[i][j] = v; m[j][i] = v;
     }
     for(int i = 0; i < n; ++i)
     {
       double s = 0.0; for(int j = 0; j < n; ++j) if(j != i) s += std::fabs(m[i][j]);
-      m[i][i] = s + pick_val(t, { 1.0, 0.5, 2.0, 0.25, 4.0 });
+      m[i][i] = s + pick_val(nb, { 1.0, 0.5, 2.0, 0.25, 4.0 });
     }
     for(int i = 0; i < n; ++i) for(int j = 0; j < n; ++j) if(m[i][j] != 0.0) { p.col[i].push_back(j); p.val[i].push_back(m[i][j]); }
     return p;
   }
 
   /// full column rank by construction: rows = permutation of [T; X], T lower triangular with non-zero diagonal
-  inline Pat gen_prol(Tape& t, int nf, int nc, std::string& cls)
+  inline Pat gen_prol(Tape& tp, int nf, int nc, std::string& cls)
   {
+    Tape& t = tp; Nib nb(tp);
     Pat p; p.rows = nf; p.cols = nc; p.col.assign(nf, {}); p.val.assign(nf, {});
     int k = t.pick({4, 2, 2}); static const char* cn[] = { "interp", "injection", "dense" };
     cls = cn[k]; p.cls = cls;
     std::vector<int> perm(nf); for(int i = 0; i < nf; ++i) perm[i] = i;
-    for(int i = nf - 1; i > 0; --i) { int j = i - t.range(0, i); std::swap(perm[i], perm[j]); } // Fisher-Yates; 0 on the tape -> identity
-    unsigned num = 1 + (unsigned)t.range(0, 4);
+    for(int i = nf - 1; i > 0; --i) { int j = i - nb.range(0, i); std::swap(perm[i], perm[j]); } // Fisher-Yates; 0 on the tape -> identity
+    unsigned num = 2 + 2 * (unsigned)t.range(0, 4);
     for(int i = 0; i < nf; ++i)
     {
       int row = perm[i];
@@ -115,9 +129,9 @@ namespace c09
         bool diag = (i < nc && j == i);
         if(i < nc && j > i) continue;                 // T is lower triangular
         bool on = diag;
-        if(!diag) { switch(k) { case 0: on = t.flag(num, 8); break; case 1: on = false; break; default: on = true; } }
+        if(!diag) { switch(k) { case 0: on = nb.flag(num, 16); break; case 1: on = false; break; default: on = true; } }
         if(!on) continue;
-        double v = diag ? pick_val(t, { 1.0, 0.5, 2.0 }) : pick_val(t, { 0.5, 0.25, 1.0, -0.25, 0.75 });
+        double v = diag ? pick_val(nb, { 1.0, 0.5, 2.0 }) : pick_val(nb, { 0.5, 0.25, 1.0, -0.25, 0.75 });
         e.emplace_back(j, v);
       }
       for(auto& x : e) { p.col[row].push_back(x.first); p.val[row].push_back(x.second); }
@@ -165,8 +179,9 @@ namespace c09
   {
     OpDesc o; o.kind = coarse ? t.pick({6, 1, 1, 1, 1, 1}) : t.pick({4, 1, 1, 2, 1, 2});
     if(coarse) { static const int map[] = { 2, 0, 1, 3, 4, 5 }; o.kind = map[o.kind]; }
-    o.omega = pick_val(t, { 0.75, 0.5, 1.0 });
-    if(o.kind == 3) { o.pert.assign(size_t(n) * n, 0.0); for(auto& x : o.pert) if(t.flag(1, 4)) x = pick_val(t, { 0.125, -0.125, 0.0625, -0.25 }); }
+    Nib nb(t);
+    o.omega = pick_val(nb, { 0.75, 0.5, 1.0 });
+    if(o.kind == 3) { o.pert.assign(size_t(n) * n, 0.0); for(auto& x : o.pert) if(nb.flag(1, 4)) x = pick_val(nb, { 0.125, -0.125, 0.0625, -0.25 }); }
     return o;
   }
 
@@ -176,7 +191,7 @@ namespace c09
   {
     HierDesc h;
     // number of levels 1..max_levels; 0 on the tape -> 1
-    h.nlev = 1 + t.sized(0, max_levels - 1, 3);
+    h.nlev = 1 + t.range(0, std::min(max_levels - 1, 2 + t.size / 10));
     h.lv.resize(h.nlev);
     // sizes: coarsest first
     std::vector<int> n(h.nlev); n[h.nlev - 1] = t.range(1, 4);
@@ -187,7 +202,7 @@ namespace c09
       LevelDesc& L = h.lv[l]; L.n = n[l];
       // filter: class none / few / many
       int fc = t.pick({2, 2, 1}); L.filt.assign(L.n, 0);
-      if(fc) for(int i = 0; i < L.n; ++i) L.filt[i] = t.flag(fc == 1 ? 1u : 3u, 8u) ? 1 : 0;
+      if(fc) { Nib nb(t); for(int i = 0; i < L.n; ++i) L.filt[i] = nb.flag(fc == 1 ? 1u : 3u, 8u) ? 1 : 0; }
       if(l == 0) { L.A = gen_spd(t, L.n); L.a_cls = "fine"; }
       else
       {
@@ -210,7 +225,7 @@ namespace c09
         switch(t.pick({5, 2, 1}))
         {
         case 0: L.R = pat_transposed(L.P, 1.0); L.r_cls = "P^T"; break;
-        case 1: { double s = pick_val(t, { 0.5, 2.0, 0.25 }); L.R = pat_transposed(L.P, s); L.r_cls = "s*P^T"; break; }
+        case 1: { Nib nb(t); double s = pick_val(nb, { 0.5, 2.0, 0.25 }); L.R = pat_transposed(L.P, s); L.r_cls = "s*P^T"; break; }
         default: { std::string dummy; Pat q = gen_prol(t, n[l], n[l + 1], dummy); L.R = pat_transposed(q, 1.0); L.r_cls = "independent"; break; }
         }
       }
@@ -273,6 +288,7 @@ namespace c09
     std::vector<EV> x, b, dupd; std::vector<char> has_dupd;
     std::vector<std::string> tr, trh;
     bool illcond = false; bool zero_cor = false; int n_omega = 0;
+    mutable LD maxabs = 0; ///< largest |value|+bound seen in any intermediate vector (overflow guard of the comparison)
     std::vector<double> omegas;
     Ref(const std::vector<RefLevel>& l, LD u) : L(l), U(u), x(l.size()), b(l.size()), dupd(l.size()), has_dupd(l.size(), 0) {}
 
@@ -284,7 +300,7 @@ namespace c09
       {
         LD s = 0, ab = 0, er = 0;
         for(int j = 0; j < M.c; ++j) { LD m = M(i, j); if(m == 0.0L) continue; s += m * xx.v[j]; ab += fabsl(m) * (fabsl(xx.v[j]) + xx.e[j]); er += fabsl(m) * xx.e[j]; }
-        y.v[i] = s; y.e[i] = er + K * LD(M.c + 2) * U * ab;
+        y.v[i] = s; y.e[i] = er + K * LD(M.c + 2) * U * ab; maxabs = std::max(maxabs, ab);
       }
       return y;
     }
@@ -296,7 +312,7 @@ namespace c09
       {
         LD s = b[l].v[i], ab = fabsl(b[l].v[i]) + b[l].e[i], er = b[l].e[i];
         for(int j = 0; j < A.c; ++j) { LD m = A(i, j); if(m == 0.0L) continue; s -= m * x[l].v[j]; ab += fabsl(m) * (fabsl(x[l].v[j]) + x[l].e[j]); er += fabsl(m) * x[l].e[j]; }
-        d.v[i] = s; d.e[i] = er + K * LD(A.c + 3) * U * ab;
+        d.v[i] = s; d.e[i] = er + K * LD(A.c + 3) * U * ab; maxabs = std::max(maxabs, ab);
       }
       filt(d, l); return d;
     }
@@ -306,7 +322,7 @@ namespace c09
       {
         LD ab = fabsl(y.v[i]) + y.e[i] + (fabsl(om) + eom) * (fabsl(cc.v[i]) + cc.e[i]);
         y.e[i] = y.e[i] + fabsl(om) * cc.e[i] + eom * (fabsl(cc.v[i]) + cc.e[i]) + K * 3.0L * U * ab;
-        y.v[i] += om * cc.v[i];
+        y.v[i] += om * cc.v[i]; maxabs = std::max(maxabs, ab);
       }
     }
     void dot(const EV& p, const EV& q, LD& val, LD& err) const
@@ -375,7 +391,7 @@ namespace c09
 
     EV run(int cyc, int top_, int crs_, int adapt_, const std::vector<LD>& defect_in)
     {
-      top = top_; crs = crs_; adapt = adapt_; tr.clear(); trh.clear(); illcond = false; zero_cor = false; n_omega = 0; omegas.clear();
+      top = top_; crs = crs_; adapt = adapt_; tr.clear(); trh.clear(); illcond = false; zero_cor = false; n_omega = 0; omegas.clear(); maxabs = 0;
       for(auto& hd : has_dupd) hd = 0;
       b[top] = EV(L[top].n); b[top].v = defect_in;
       switch(cyc) { case 0: V(top); break; case 1: F(top); break; default: W(top); }
